@@ -1,13 +1,32 @@
 """C12 — DiplomatWrite is exact and never overruns (DESIGN §5 C12)."""
 import itertools, json, os
 from common import *
-
-PROP = "C12"
-CONE = ["theories/Properties/C12.v"]
-HEADER = "From Coq Require Import List NArith Bool.\nImport ListNotations.\nFrom DV Require Import Write.Model."
+import e2e
 
 POOL = ["", "a", "ab", "xyz", "hello", "0123456789", "é", "ß", "€", "한", "😀", "a€b", "𝄞x", "\u0000", "\x7f",
         "ééé", "日本語", "q" * 17, "w" * 33]
+
+BRIDGE = r'''
+#[diplomat::bridge]
+mod ffi {
+    use core::fmt::Write;
+    use diplomat_runtime::{DiplomatStr, DiplomatWrite};
+    #[diplomat::opaque]
+    pub struct W;
+    impl W {
+        pub fn chunks(text: &DiplomatStr, cuts: &[u32], w: &mut DiplomatWrite) {
+            let text = core::str::from_utf8(text).unwrap();
+            let mut prev = 0usize;
+            for &c in cuts {
+                let c = c as usize;
+                let _ = w.write_str(&text[prev..c]);
+                prev = c;
+            }
+            let _ = w.write_str(&text[prev..]);
+        }
+    }
+}
+'''
 
 
 def rand_chunk(rng):
@@ -23,89 +42,108 @@ def b(s):
     return list(s.encode("utf-8"))
 
 
-def gen_cases(ctx):
-    rng = ctx.rng
-    cases = []
-    # exhaustive grow patterns up to length 6 (every write grows: cap 1, 2-byte chunks, extra 0)
-    alphabet = [None, [0, 17], [3, 200]]
-    maxk = 6 if ctx.quick() else 7
-    for k in range(0, maxk + 1):
-        for pat in itertools.product(alphabet, repeat=k):
-            cases.append({"kind": "caller", "cap": 1, "fill": 1, "chunks": [b("é")] * (k + 1), "grows": list(pat),
-                          "src": "exhaustive"})
-    n_rand = 1200 if ctx.quick() else 30000
-    for _ in range(n_rand):
-        kind = rng.choices(["caller", "simple", "owned"], [6, 2, 2])[0]
-        nch = rng.choice([0, 1, 2, 3, 4, 5, 6, 8, 12])
-        chunks = [b(rand_chunk(rng)) for _ in range(nch)]
-        if kind == "caller":
-            cap = rng.choice([1, 1, 2, 3, 4, 7, 8, 15, 16, 31, 64, rng.randint(1, 64)])
-            ng = rng.randint(0, nch + 1)
-            grows = [None if rng.random() < 0.3 else [rng.choice([0, 0, 1, 5, 40]), rng.randint(0, 255)] for _ in range(ng)]
-            cases.append({"kind": kind, "cap": cap, "fill": rng.randint(0, 255), "chunks": chunks, "grows": grows, "src": "random"})
-        elif kind == "simple":
-            cases.append({"kind": kind, "bufsize": rng.choice([1, 2, 3, 5, 8, 16, 33, rng.randint(1, 64)]),
-                          "fill": rng.randint(1, 255), "chunks": chunks, "src": "random"})
-        else:
-            cases.append({"kind": kind, "cap": rng.choice([1, 2, 4, 8, 32, rng.randint(1, 64)]), "chunks": chunks, "src": "random"})
-    return cases
+def cgout(g):
+    return "GFail" if g is None else f"(GOk {cnat(g[0])} {cN(g[1])})"
 
 
-def direct_check(case, out):
-    """The property's text, checked directly on what the implementation did. Returns None or a message."""
-    chunks = [bytes(c) for c in case["chunks"]]
-    if case["kind"] == "caller":
-        if not out["canary"]:
-            return "a byte beyond the capacity was written (canary zone damaged)"
-        landed, failed_at, cap = b"", None, case["cap"]
-        for i, (ch, o) in enumerate(zip(chunks, out["obs"])):
-            if not o["canary"]:
-                return f"write #{i} touched bytes beyond capacity"
-            if failed_at is None:
-                need = len(landed) + len(ch)
-                want_grow = need > cap
-                if bool(o["grows"]) != want_grow:
-                    return f"write #{i}: grow called={bool(o['grows'])} but needed>cap is {want_grow}"
-                if o["grows"]:
-                    if len(o["grows"]) != 1 or o["grows"][0][0] != need:
-                        return f"write #{i}: grow requested {o['grows']} instead of [{need}]"
-                    if not o["grows"][0][1]:
-                        failed_at = i
+def hexs(bs):
+    return "".join(f"\\x{x:02x}" for x in bs)
+
+
+class C12(Spec):
+    prop = "C12"
+    cone = ["theories/Properties/C12.v"]
+    header = "From Coq Require Import List NArith Bool.\nImport ListNotations.\nFrom DV Require Import Write.Model."
+    area = "write"
+    list_fields = ("chunks", "grows")
+    modelled = ("Modelled, not verified: runtime/src/write.rs and the WriteFromString part of tool/templates/cpp/runtime.hpp.jinja, "
+                "transcribed by hand into coq/theories/Write/Model.v; the allocator behind Vec::reserve (its returned capacity is an "
+                "oracle input); memcpy; libstdc++'s std::string::resize")
+    rule = ("cases = corpus + all grow-outcome patterns {fail, ok(+0), ok(+3)}^k (k<=6 quick / 7 thorough) on a writer where every write "
+            "must grow + seeded random histories (caller-supplied / fixed-size / Rust-owned writers, UTF-8 chunk pool incl. empty and "
+            "multi-byte), each run on the real runtime through a #[repr(C)] mirror with canary zones; plus end-to-end histories through "
+            "a bridge compiled with the real macro and called via the generated C++ class (std::string result, -std=c++17) and the C "
+            "header (diplomat_simple_write, diplomat_buffer_write_*). non-trivial = at least one grow() call happened (caller, owned, "
+            "C++) or the fixed buffer overflowed; distinct = distinct (kind, capacity, chunks, grow events)")
+    assumptions = ("usize overflow of len + chunk length is out of scope (no such history is generated)",
+                   "grow() callbacks honour their contract when they return true (new buffer >= requested, old contents kept)")
+
+    def gen_cases(self, ctx):
+        rng, cases = ctx.rng, []
+        alphabet = [None, [0, 17], [3, 200]]
+        maxk = 6 if ctx.quick() else 7
+        for k in range(0, maxk + 1):
+            for pat in itertools.product(alphabet, repeat=k):
+                cases.append({"kind": "caller", "cap": 1, "fill": 1, "chunks": [b("é")] * (k + 1), "grows": list(pat)})
+        n_rand = 1200 if ctx.quick() else 30000
+        for _ in range(n_rand):
+            kind = rng.choices(["caller", "simple", "owned"], [6, 2, 2])[0]
+            nch = rng.choice([0, 1, 2, 3, 4, 5, 6, 8, 12])
+            chunks = [b(rand_chunk(rng)) for _ in range(nch)]
+            if kind == "caller":
+                cap = rng.choice([1, 1, 2, 3, 4, 7, 8, 15, 16, 31, 64, rng.randint(1, 64)])
+                ng = rng.randint(0, nch + 1)
+                grows = [None if rng.random() < 0.3 else [rng.choice([0, 0, 1, 5, 40]), rng.randint(0, 255)] for _ in range(ng)]
+                cases.append({"kind": kind, "cap": cap, "fill": rng.randint(0, 255), "chunks": chunks, "grows": grows})
+            elif kind == "simple":
+                cases.append({"kind": kind, "bufsize": rng.choice([1, 2, 3, 5, 8, 16, 33, rng.randint(1, 64)]),
+                              "fill": rng.randint(1, 255), "chunks": chunks})
+            else:
+                cases.append({"kind": kind, "cap": rng.choice([1, 2, 4, 8, 32, rng.randint(1, 64)]), "chunks": chunks})
+        return cases
+
+    def direct_check(self, case, out):
+        chunks = [bytes(c) for c in case["chunks"]]
+        if case["kind"] == "caller":
+            if not out["canary"]:
+                return "a byte beyond the capacity was written (canary zone damaged)"
+            landed, failed_at, cap = b"", None, case["cap"]
+            for i, (ch, o) in enumerate(zip(chunks, out["obs"])):
+                if not o["canary"]:
+                    return f"write #{i} touched bytes beyond capacity"
                 if failed_at is None:
-                    landed += ch
-                    cap = o["cap"]
-            else:
-                if o["grows"]:
+                    need = len(landed) + len(ch)
+                    want_grow = need > cap
+                    if bool(o["grows"]) != want_grow:
+                        return f"write #{i}: grow called={bool(o['grows'])} but needed>cap is {want_grow}"
+                    if o["grows"]:
+                        if len(o["grows"]) != 1 or o["grows"][0][0] != need:
+                            return f"write #{i}: grow requested {o['grows']} instead of [{need}]"
+                        if not o["grows"][0][1]:
+                            failed_at = i
+                    if failed_at is None:
+                        landed += ch
+                        cap = o["cap"]
+                elif o["grows"]:
                     return f"write #{i}: grow called again after a failed growth"
-            if o["failed"] != (failed_at is not None):
-                return f"write #{i}: flag={o['failed']} but a growth has{' ' if failed_at is not None else ' not '}failed"
-            if o["len"] != len(landed) or bytes(o["mem"][:o["len"]]) != landed:
-                return f"write #{i}: buffer holds {bytes(o['mem'][:o['len']])!r}, expected {landed!r}"
-            if o["len"] > o["cap"]:
-                return f"write #{i}: len {o['len']} > cap {o['cap']}"
-        return None
-    if case["kind"] == "simple":
-        size = case["bufsize"]
-        if not out["canary"]:
-            return "flush or write stored outside the caller's buffer"
-        landed, failed = b"", False
-        for ch in chunks:
-            if not failed and len(landed) + len(ch) <= size - 1:
-                landed += ch
-            else:
-                failed = True
-        if out["len"] != len(landed) or bytes(out["mem"][:len(landed)]) != landed:
-            return f"fixed buffer holds {bytes(out['mem'][:out['len']])!r}, expected {landed!r}"
-        if out["len"] > size - 1 or out["mem"][out["len"]] != 0:
-            return "no NUL terminator at buf[len] inside the buffer"
-        if any(x != case["fill"] for x in out["mem"][out["len"] + 1:]):
-            return "bytes after the terminator were touched"
-        if out["failed"] != failed:
-            return f"flag={out['failed']}, expected {failed}"
-        if out["mem"] != out["mem2"]:
-            return "flush is not idempotent"
-        return None
-    if case["kind"] == "owned":
+                if o["failed"] != (failed_at is not None):
+                    return f"write #{i}: flag={o['failed']} but a growth has{' ' if failed_at is not None else ' not '}failed"
+                if o["len"] != len(landed) or bytes(o["mem"][:o["len"]]) != landed:
+                    return f"write #{i}: buffer holds {bytes(o['mem'][:o['len']])!r}, expected {landed!r}"
+                if o["len"] > o["cap"]:
+                    return f"write #{i}: len {o['len']} > cap {o['cap']}"
+            return None
+        if case["kind"] == "simple":
+            size = case["bufsize"]
+            if not out["canary"]:
+                return "flush or write stored outside the caller's buffer"
+            landed, failed = b"", False
+            for ch in chunks:
+                if not failed and len(landed) + len(ch) <= size - 1:
+                    landed += ch
+                else:
+                    failed = True
+            if out["len"] != len(landed) or bytes(out["mem"][:len(landed)]) != landed:
+                return f"fixed buffer holds {bytes(out['mem'][:out['len']])!r}, expected {landed!r}"
+            if out["len"] > size - 1 or out["mem"][out["len"]] != 0:
+                return "no NUL terminator at buf[len] inside the buffer"
+            if any(x != case["fill"] for x in out["mem"][out["len"] + 1:]):
+                return "bytes after the terminator were touched"
+            if out["failed"] != failed:
+                return f"flag={out['failed']}, expected {failed}"
+            if out["mem"] != out["mem2"]:
+                return "flush is not idempotent"
+            return None
         landed = b""
         for i, (ch, o) in enumerate(zip(chunks, out["obs"])):
             landed += ch
@@ -117,169 +155,139 @@ def direct_check(case, out):
                 return f"write #{i}: len > cap"
         return None
 
+    def goal_of(self, case, out):
+        chunks = clist([cbytes(c) for c in case["chunks"]])
+        if case["kind"] == "caller":
+            obs = clist([f"mkObs {cnat(o['len'])} {cnat(o['cap'])} {cbool(o['failed'])} {cbytes(o['mem'])}" for o in out["obs"]])
+            k = f"(mkCase {cnat(case['cap'])} {cN(case['fill'])} {chunks} {clist([cgout(g) for g in case['grows']])})"
+            return f"agree_caller {k} {obs}"
+        if case["kind"] == "simple":
+            return (f"agree_simple {cnat(case['bufsize'])} {cN(case['fill'])} {chunks} {cbytes(out['mem'])} "
+                    f"{cnat(out['len'])} {cbool(out['failed'])}")
+        gs, cap, ln = [], case["cap"], 0
+        for ch, o in zip(case["chunks"], out["obs"]):
+            need = ln + len(ch)
+            if need > cap:
+                gs.append(f"(GOk {cnat(max(o['cap'] - need, 0))} 0%N)" if o["cap"] >= need else "GFail")
+            cap, ln = o["cap"], o["len"]
+        obs = clist([f"({cnat(o['get_len'])}, {cnat(o['cap'])}, {copt(cbytes(o['get_bytes'])) if o['get_bytes'] is not None else 'None'})"
+                     for o in out["obs"]])
+        return f"agree_owned {cnat(case['cap'])} {chunks} {clist(gs)} {obs}"
 
-def cgout(g):
-    return "GFail" if g is None else f"(GOk {cnat(g[0])} {cN(g[1])})"
+    def nontrivial_key(self, case, out):
+        if case["kind"] == "caller":
+            ev = tuple(tuple(map(tuple, o["grows"])) for o in out["obs"])
+            if not any(ev):
+                return None
+            return ("caller", case["cap"], tuple(map(tuple, case["chunks"])), ev)
+        if case["kind"] == "simple":
+            return ("simple", case["bufsize"], tuple(map(tuple, case["chunks"]))) if out["failed"] else None
+        caps = tuple(o["cap"] for o in out["obs"])
+        return ("owned", case["cap"], tuple(map(tuple, case["chunks"]))) if any(c != case["cap"] for c in caps) else None
 
+    def sample(self, case, out):
+        return {"case": case, "observed_final": (out["obs"][-1] if out.get("obs") else out)}
 
-def goal_of(case, out):
-    chunks = clist([cbytes(c) for c in case["chunks"]])
-    if case["kind"] == "caller":
-        obs = clist([f"mkObs {cnat(o['len'])} {cnat(o['cap'])} {cbool(o['failed'])} {cbytes(o['mem'])}" for o in out["obs"]])
-        k = f"(mkCase {cnat(case['cap'])} {cN(case['fill'])} {chunks} {clist([cgout(g) for g in case['grows']])})"
-        return f"agree_caller {k} {obs}"
-    if case["kind"] == "simple":
-        return (f"agree_simple {cnat(case['bufsize'])} {cN(case['fill'])} {chunks} {cbytes(out['mem'])} "
-                f"{cnat(out['len'])} {cbool(out['failed'])}")
-    # owned: the capacity the allocator handed back is the oracle's outcome (extra = newcap - requested)
-    gs, cap, ln = [], case["cap"], 0
-    for ch, o in zip(case["chunks"], out["obs"]):
-        need = ln + len(ch)
-        if need > cap:
-            gs.append(f"(GOk {cnat(max(o['cap'] - need, 0))} 0%N)" if o["cap"] >= need else "GFail")
-        cap, ln = o["cap"], o["len"]
-    obs = clist([f"({cnat(o['get_len'])}, {cnat(o['cap'])}, {copt(cbytes(o['get_bytes'])) if o['get_bytes'] is not None else 'None'})"
-                 for o in out["obs"]])
-    return f"agree_owned {cnat(case['cap'])} {chunks} {clist(gs)} {obs}"
-
-
-def nontrivial_key(case, out):
-    """non-trivial = at least one growth happened or failed (caller/owned) or the buffer overflowed (simple)"""
-    if case["kind"] == "caller":
-        ev = tuple(tuple(map(tuple, o["grows"])) for o in out["obs"])
-        if not any(ev):
-            return None
-        return ("caller", case["cap"], tuple(map(tuple, case["chunks"])), ev)
-    if case["kind"] == "simple":
-        return ("simple", case["bufsize"], tuple(map(tuple, case["chunks"]))) if out["failed"] else None
-    caps = tuple(o["cap"] for o in out["obs"])
-    return ("owned", case["cap"], tuple(map(tuple, case["chunks"]))) if any(c != case["cap"] for c in caps) else None
-
-
-def shrink(case, still_fails):
-    """greedy: drop chunks / grow outcomes, shorten chunks"""
-    cur = case
-    changed = True
-    budget = 60
-    while changed and budget > 0:
-        changed = False
-        for field in ("chunks", "grows"):
-            if field not in cur:
-                continue
-            i = 0
-            while i < len(cur[field]) and budget > 0:
-                cand = dict(cur); cand[field] = cur[field][:i] + cur[field][i + 1:]
-                budget -= 1
-                if still_fails(cand):
-                    cur, changed = cand, True
-                else:
-                    i += 1
-    return cur
-
-
-def evaluate(ctx, cases):
-    """oracle + direct property check + correspondence for a list of cases.
-    Returns (outs, direct_failures[(idx,msg)], corr_failures[idx])"""
-    outs, p = oracle("write", cases)
-    if outs is None:
-        # the batch crashed: find the crashing case
-        outs = []
-        crashed = []
-        for i, (o, pp) in enumerate(oracle_each("write", cases)):
-            outs.append(o)
-            if o is None:
-                crashed.append((i, f"implementation crashed: rc={pp.returncode} {pp.stderr.strip()[-300:]}"))
-        return outs, crashed, []
-    direct = []
-    for i, (c, o) in enumerate(zip(cases, outs)):
-        m = direct_check(c, o)
-        if m:
-            direct.append((i, m))
-    goals = [goal_of(c, o) for c, o in zip(cases, outs)]
-    # find all failing goals: rerun shards without the first failure until clean (bounded)
-    corr, live = [], list(range(len(cases)))
-    for _ in range(4):
-        fails = run_shards(PROP, HEADER, [goals[i] for i in live])
-        if not fails:
-            break
-        bad = [live[f] for f in fails]
-        corr += bad
-        live = [i for i in live if i not in bad]
-    return outs, direct, corr
+    # ---- end to end: generated C++ class and C header over a bridge built with the real macro
+    def extra(self, ctx, cases, outs):
+        rng = ctx.rng
+        e2e.build_tool()
+        d, lib, p = e2e.bridge_crate("c12w", BRIDGE)
+        if lib is None:
+            ctx.violation("e2e:bridge-build", {"broken": "the write-out bridge no longer compiles with the real macro", "log": p.stderr[-2000:]}, False)
+            return {"obligations": 1, "discharged": 0}
+        src = os.path.join(d, "src", "lib.rs")
+        for backend in ("cpp", "c"):
+            q = e2e.run_tool(backend, src, os.path.join(d, "out_" + backend))
+            if q.returncode != 0:
+                ctx.violation("e2e:tool-" + backend, {"broken": f"diplomat-tool {backend} failed on the write-out bridge", "log": q.stderr[-2000:]}, False)
+                return {"obligations": 1, "discharged": 0}
+        n = 60 if ctx.quick() else 400
+        hist = []
+        for _ in range(n):
+            chunks = [rand_chunk(rng) for _ in range(rng.choice([1, 2, 3, 4, 6, 9]))]
+            if rng.random() < 0.3:
+                chunks = [rng.choice(["x" * rng.randint(10, 40), "€" * rng.randint(5, 20)])] + chunks
+            hist.append([b(c) for c in chunks])
+        hist += [[b("hello, "), b("Bob"), b("!")], [b("a" * 20), b("b"), b("c" * 3), b("d")], [b("")], [b(""), b("x")]]
+        # C++ driver
+        body = []
+        for i, chunks in enumerate(hist):
+            text = [x for c in chunks for x in c]
+            cuts, acc = [], 0
+            for c in chunks[:-1]:
+                acc += len(c); cuts.append(acc)
+            body.append(f'  {{ static const char t[] = "{hexs(text)}"; static const uint32_t c[] = {{{", ".join(map(str, cuts)) or "0"}}};\n'
+                        f'    std::string r = W::chunks(std::string_view(t, {len(text)}), diplomat::span<const uint32_t>(c, {len(cuts)}));\n'
+                        f'    printf("{i}:"); for (unsigned char ch : r) printf("%02x", ch); printf("\\n"); }}')
+        cpp = '#include "W.hpp"\n#include <cstdio>\n#include <string>\nint main() {\n' + "\n".join(body) + "\n  return 0;\n}\n"
+        cpp_path = os.path.join(d, "drv.cpp")
+        open(cpp_path, "w").write(cpp)
+        # C driver: fixed-size writer and Rust-owned writer through the generated header
+        cbody = []
+        sizes = [rng.choice([1, 2, 4, 8, 16, 40, 128]) for _ in hist]
+        for i, chunks in enumerate(hist):
+            text = [x for c in chunks for x in c]
+            cuts, acc = [], 0
+            for c in chunks[:-1]:
+                acc += len(c); cuts.append(acc)
+            sz = sizes[i]
+            cbody.append(f'  {{ static const char t[] = "{hexs(text)}"; static const uint32_t c[] = {{{", ".join(map(str, cuts)) or "0"}}};\n'
+                         f'    unsigned char buf[{sz} + 8]; memset(buf, 0xEE, sizeof buf);\n'
+                         f'    DiplomatWrite w = diplomat_simple_write((char*)buf, {sz});\n'
+                         f'    W_chunks((DiplomatStringView){{t, {len(text)}}}, (DiplomatU32View){{c, {len(cuts)}}}, &w);\n'
+                         f'    printf("s{i}:%d:%zu:", (int)w.grow_failed, w.len); for (int k = 0; k < {sz} + 8; k++) printf("%02x", buf[k]); printf("\\n");\n'
+                         f'    DiplomatWrite* o = diplomat_buffer_write_create({rng.choice([1, 2, 8, 64])});\n'
+                         f'    W_chunks((DiplomatStringView){{t, {len(text)}}}, (DiplomatU32View){{c, {len(cuts)}}}, o);\n'
+                         f'    printf("o{i}:"); for (size_t k = 0; k < diplomat_buffer_write_len(o); k++) printf("%02x", (unsigned char)diplomat_buffer_write_get_bytes(o)[k]); printf("\\n");\n'
+                         f'    diplomat_buffer_write_destroy(o); }}')
+        csrc = '#include "W.h"\n#include <stdio.h>\n#include <string.h>\nint main(void) {\n' + "\n".join(cbody) + "\n  return 0;\n}\n"
+        c_path = os.path.join(d, "drv.c")
+        open(c_path, "w").write(csrc)
+        viol = 0
+        stds = ["c++17"] if ctx.quick() else ["c++17", "c++20"]
+        goals, total = [], 0
+        for std in stds:
+            c, r = e2e.cc_run(cpp_path, [os.path.join(d, "out_cpp")], lib, os.path.join(d, "drv_cpp"), std=std, cxx=True)
+            if r is None or r.returncode != 0:
+                ctx.violation("e2e:cpp-driver", {"broken": "C++ driver for the write-out bridge failed to build/run", "log": (c.stderr if r is None else r.stderr)[-2000:]}, False)
+                return {"obligations": 1, "discharged": 0}
+            got = dict(l.split(":", 1) for l in r.stdout.split("\n") if ":" in l)
+            for i, chunks in enumerate(hist):
+                total += 1
+                text = bytes(x for c in chunks for x in c)
+                res = bytes.fromhex(got.get(str(i), "ff"))
+                if res != text and viol < 2:
+                    viol += 1
+                    ctx.violation("e2e:cpp-string", {"case": {"kind": "cpp", "chunks": chunks, "std": std},
+                                                    "what": f"C++ method returned {res!r}, Rust wrote {text!r}"}, True)
+                goals.append(f"agree_cpp {clist([cbytes(c) for c in chunks])} {cbytes(list(res))}")
+        c, r = e2e.cc_run(c_path, [os.path.join(d, "out_c")], lib, os.path.join(d, "drv_c"), std="c11")
+        if r is None or r.returncode != 0:
+            ctx.violation("e2e:c-driver", {"broken": "C driver for the write-out bridge failed to build/run", "log": (c.stderr if r is None else r.stderr)[-2000:]}, False)
+            return {"obligations": 1, "discharged": 0}
+        got = dict(l.split(":", 1) for l in r.stdout.split("\n") if ":" in l)
+        for i, chunks in enumerate(hist):
+            total += 2
+            text = bytes(x for c in chunks for x in c)
+            sz = sizes[i]
+            fl, ln, hx = got[f"s{i}"].split(":")
+            mem = list(bytes.fromhex(hx))
+            if mem[sz:] != [0xEE] * 8 and viol < 2:
+                viol += 1
+                ctx.violation("e2e:c-simple-overrun", {"case": {"kind": "c-simple", "chunks": chunks, "bufsize": sz}, "what": "bytes past the caller's buffer were written"}, True)
+            goals.append(f"agree_simple {cnat(sz)} 238%N {clist([cbytes(c) for c in chunks])} {cbytes(mem[:sz])} {cnat(int(ln))} {cbool(fl == '1')}")
+            ob = bytes.fromhex(got[f"o{i}"])
+            if ob != text and viol < 2:
+                viol += 1
+                ctx.violation("e2e:c-owned", {"case": {"kind": "c-owned", "chunks": chunks}, "what": f"Rust-owned writer holds {ob!r}, expected {text!r}"}, True)
+            goals.append(f"agree_cpp {clist([cbytes(c) for c in chunks])} {cbytes(list(ob))}")
+        fails = run_shards(self.prop + "", self.header, goals)
+        if fails and viol == 0:
+            ctx.violation("e2e:corr", {"broken": "end-to-end correspondence goal: " + goals[fails[0]][:300]}, False)
+        return {"obligations": len(goals), "discharged": len(goals) - len(fails), "e2e_histories": len(hist),
+                "e2e_executions": total, "cpp_standards": stds}
 
 
 def check(ctx, replay=None):
-    build_harness()
-    phase = standard_proof_phase(ctx, PROP, CONE)
-    names, ass = phase if phase else ([], {})
-    corpus = []
-    cdir = os.path.join(VERIF, "corpus", PROP)
-    if os.path.isdir(cdir):
-        for f in sorted(os.listdir(cdir)):
-            corpus += [json.loads(l) for l in open(os.path.join(cdir, f)) if l.strip()]
-    if replay:
-        cases = [replay["replay"]["case"]] if "case" in replay.get("replay", {}) else corpus
-    else:
-        cases = corpus + gen_cases(ctx)
-    outs, direct, corr = evaluate(ctx, cases)
-
-    def fails_direct(c):
-        o, _ = oracle("write", [c])
-        return o is None or direct_check(c, o[0]) is not None
-
-    def fails_corr(c):
-        o, _ = oracle("write", [c])
-        return o is not None and not goal_holds(PROP, HEADER, goal_of(c, o[0]))
-
-    for i, msg in direct[:3]:
-        small = shrink(cases[i], fails_direct)
-        o, _ = oracle("write", [small])
-        m2 = (direct_check(small, o[0]) if o else msg) or msg
-        ctx.violation("direct:" + small["kind"], {"case": small, "what": m2, "observed": o[0] if o else None}, True)
-    if not direct:
-        for i in corr[:3]:
-            small = shrink(cases[i], fails_corr)
-            o, _ = oracle("write", [small])
-            ctx.violation("corr:" + small["kind"],
-                          {"case": small, "observed": o[0] if o else None,
-                           "broken": "correspondence goal " + goal_of(small, o[0])[:60] + "... (Write/Model.v no longer "
-                           "describes runtime/src/write.rs); the property's direct check found no failing input"},
-                          False)
-
-    keys = set()
-    kinds = {}
-    for c, o in zip(cases, outs):
-        if o is None:
-            continue
-        k = nontrivial_key(c, o)
-        if k:
-            keys.add(k)
-        kinds[c["kind"]] = kinds.get(c["kind"], 0) + 1
-    nobl = len(names) + len(cases)
-    ndis = (len(names) if phase else 0) + len(cases) - len(corr)
-    cov = {
-        "obligations": nobl, "discharged": ndis,
-        "checker_cmd": "make -C coq theories/Properties/C12.vo (coqc, full .vo) + coqc on generated cases_C12_*.v (vm_compute; reflexivity)",
-        "trusted_base": TRUSTED_BASE_COMMON + [
-            "Modelled, not verified: runtime/src/write.rs transcribed by hand into coq/theories/Write/Model.v; "
-            "the allocator behind Vec::reserve (its returned capacity is an oracle input); memcpy",
-            "Print Assumptions: " + "; ".join(f"{n}: {'closed' if not a else ','.join(a)}" for n, a in ass.items()),
-        ],
-        "theorems": names,
-        "evaluations": len(cases), "distinct_nontrivial": len(keys),
-        "rule": "cases = corpus + all grow-outcome patterns {fail, ok(+0), ok(+3)}^k (k<=6 quick / 7 thorough) on a writer where "
-                "every write must grow + seeded random histories (caller-supplied / fixed-size / Rust-owned writers, UTF-8 chunk pool "
-                "incl. empty and multi-byte). Each case is run on the real runtime through a #[repr(C)] mirror with canary zones; "
-                "non-trivial = at least one grow() call happened (caller, owned) or the fixed buffer overflowed; distinct = distinct "
-                "(kind, capacity, chunks, grow events)",
-        "traces_validated_against_impl": len(cases) - len(corr),
-        "kinds": kinds,
-        "exhaustive": False,
-        "samples": [{"case": {k: v for k, v in c.items()}, "observed_final": (o["obs"][-1] if o and o.get("obs") else o)}
-                    for c, o in list(zip(cases, outs))[300:301] + list(zip(cases, outs))[-2:]],
-    }
-    return ctx.finish(cov, [
-        "usize overflow of len + chunk length is out of scope (no such history is generated)",
-        "grow() callbacks honour their contract when they return true (new buffer >= requested, old contents kept)",
-        "the C++ WriteFromString template is tied through the C02/C01 end-to-end checks, here only its model is proved",
-    ])
+    return run_property(C12(), ctx, replay)
